@@ -96,14 +96,9 @@ func (r *R) Gen(ctx sdk.Context, g *hx.Rng) string {
 		}
 		return p.P.Id
 	}
-	if r.pendingReimport && r.boundary {
-		r.pendingReimport = false
-		return "farm reimport"
-	}
-	r.pendingReimport = false
 	// genesis round trip inside the history (C12): the exported document, and a re-import
 	if r.Genesis && len(ps) > 0 && g.Chance(1, 12) {
-		if !r.boundary || g.Chance(1, 2) {
+		if g.Chance(1, 2) {
 			return "farm export"
 		}
 		return "farm reimport"
@@ -299,10 +294,6 @@ func (r *R) Gen(ctx sdk.Context, g *hx.Rng) string {
 		}
 		return "farm destroy_pool " + hx.KV("sender", sender, "pool", poolId(p))
 	default: // end_block
-		if r.Genesis && g.Chance(1, 6) {
-			// a block end followed by a re-import: the export of a real chain is taken here
-			r.pendingReimport = true
-		}
 		n := int64(1)
 		switch g.Pick(12, 3, 3) {
 		case 1:
